@@ -15,6 +15,7 @@ import (
 	"sort"
 	"strconv"
 	"strings"
+	"unsafe"
 
 	"github.com/kklash/bitcoinlib/base58check"
 	"github.com/kklash/bitcoinlib/bech32"
@@ -45,9 +46,65 @@ func bufInvoke(fn reflect.Value, in []reflect.Value) (out []reflect.Value, panic
 		}
 	}()
 	if fn.Type().IsVariadic() {
-		return fn.CallSlice(in), false, ""
+		out = fn.CallSlice(in)
+	} else {
+		out = fn.Call(in)
 	}
-	return fn.Call(in), false, ""
+	bufRetainResults(in, out)
+	return out, false, ""
+}
+
+// bufRetainResults hands every byte slice a call returned to the retained-results check (core.go),
+// unless it lies in an argument's memory (returning a sub-slice of an argument is not a defect, and
+// the rig reuses its argument arrays): a result that lives in a pooled or reused buffer of the library
+// is overwritten by a later call while the caller still holds it.
+func bufRetainResults(in, out []reflect.Value) {
+	var args [][]byte
+	var collect func(v reflect.Value, into *[][]byte)
+	collect = func(v reflect.Value, into *[][]byte) {
+		switch v.Kind() {
+		case reflect.Slice:
+			if v.Type().Elem().Kind() == reflect.Uint8 {
+				if v.Cap() > 0 {
+					*into = append(*into, v.Bytes()[:v.Len():v.Cap()])
+				}
+				return
+			}
+			for i := 0; i < v.Len() && i < 64; i++ {
+				collect(v.Index(i), into)
+			}
+		case reflect.Interface, reflect.Ptr:
+			if !v.IsNil() {
+				collect(v.Elem(), into)
+			}
+		}
+	}
+	for _, a := range in {
+		collect(a, &args)
+	}
+	var res [][]byte
+	for _, o := range out {
+		collect(o, &res)
+	}
+	for _, b := range res {
+		alias := false
+		for _, a := range args {
+			if bufOverlap(a[:cap(a)], b[:cap(b)]) {
+				alias = true
+			}
+		}
+		if !alias && len(b) > 0 {
+			retain(b)
+		}
+	}
+}
+
+func bufOverlap(a, b []byte) bool {
+	if len(a) == 0 || len(b) == 0 {
+		return false
+	}
+	pa, pb := uintptr(unsafe.Pointer(&a[0])), uintptr(unsafe.Pointer(&b[0]))
+	return pa < pb+uintptr(len(b)) && pb < pa+uintptr(len(a))
 }
 
 // one execution: private copies (arrays == nil) or the laid-out canary arrays
